@@ -57,8 +57,10 @@ func checkC05(r *report.Report, tier string, seed int64) error {
 	opt := gen.DefaultOptions()
 	opt.WellFormed = true
 	opt.Hooks = 0.1
+	opt.HiddenBias = true
+	opt.Explicit = 0.8
 	r.Rule = "destination shapes (nested, embedded, anonymous, imported with unexported members, empty) x notation sets; oracle: reachable fields recomputed from go/types, each must be covered exactly once (own entry, or member-wise entries) in the real output, invisible fields never mentioned, each `no match` has a positioned warning; non-trivial = exit 0 with at least one nested or no-match entry; distinct by file contents"
-	return pipelineCheck(r, "C05", seed, tierN(tier, 224, 8000), opt, nil,
+	return pipelineCheck(r, "C05", seed, tierN(tier, 288, 8000), opt, nil,
 		func(cr *caseRun) bool { return cr.Impl.Status == 0 && strings.Contains(cr.Impl.Output, "// no match") }, c05Oracle)
 }
 
